@@ -16,7 +16,7 @@ Class == IF Len(name) = 0 THEN "root"                      \* no labels (or the 
          ELSE IF Len(name) > MaxNameText THEN "toolong"     \* encodable label by label but over 255 octets
          ELSE "valid"
 
-SplitAgrees == Len(name) > 0 => (Len(Labels(name)) = Len(ll) /\ \A i \in 1..Len(ll) : Len(Labels(name)[i]) = ll[i])
+SplitAgrees == Len(name) > 0 => LET L == Labels(name) IN (Len(L) = Len(ll) /\ \A i \in 1..Len(ll) : Len(L[i]) = ll[i])
 RoundTrip == Class \in {"valid", "toolong", "root"} =>
                 LET w == Wire(name) u == UnWire(w, 1) IN
                 /\ u.ok /\ u.next = Len(w) + 1
